@@ -4,9 +4,10 @@
 
    The model describes the REPAIRED code of /repo:
      - 02f56c9  moveGenerator.snapshotTE: the generator works on a copy of the table entry taken when it is created;
-     - 8daa71e  Analyze seeds the value from an exact root table entry.
-   The section variable [pinned] selects the code before these two repairs (pinned = true: the generator re-reads the
-   table slot on every Next, and Analyze starts from v = 0).  Everything exported at the end of the file is the fixed variant. *)
+     - 8daa71e  Analyze seeds the value from an exact root table entry;
+     - AnalyzeAll stops listing lines once the search is cancelled.
+   The section variable [pinned] selects the code before these repairs (pinned = true: the generator re-reads the
+   table slot on every Next, Analyze starts from v = 0, AnalyzeAll never reads the flag in its second pass).  Everything exported at the end of the file is the fixed variant. *)
 From Coq Require Import NArith ZArith List Bool Lia.
 Require Import Board Move GameOver Eval.
 Import ListNotations.
@@ -436,29 +437,33 @@ Definition new_state (table_entries : nat) : sstate :=
   {| table := repeat entry0 table_entries; history := []; response := []; fpv := repeat (repeat move0 max_depth) max_depth;
      fm := repeat move0 max_depth; st := stats0; evals := 0 |}.
 
-(* AnalyzeAll: Analyze, then every root move is searched with the window (v-1, v+1); result = (lines, value, depth, canceled) *)
+(* AnalyzeAll: Analyze, then every root move is searched with the window (v-1, v+1); result = (lines, value, depth, canceled).
+   Repaired code (fix: AnalyzeAll stops listing lines once the search is cancelled): after every child search of the second pass the
+   cancel flag is read; when it is set the loop stops, the lines found so far are reported and Stats.Canceled is set.  pinned = true is
+   the code before that repair (the flag is never read in the second pass: an abandoned child search counts as value 0). *)
 Definition analyze_all_gen (s0 : sstate) (p : position) : sstate * (list (list rmove) * Z * Z * bool) :=
   let '(s, (pv, v, d, _, canc)) := analyze_gen s0 p in
   match pv with
   | [] => (s, ([], v, d, canc))
   | pm :: pvt =>
     let g0 := new_gen s None pv 0 d p in
-    let '(s, out) :=
-      (fix loop (k : nat) (s : sstate) (g : mgen) (out : list (list rmove)) : sstate * list (list rmove) :=
-         match k with O => (s, out) | S k' =>
+    let '(s, out, brk) :=
+      (fix loop (k : nat) (s : sstate) (g : mgen) (out : list (list rmove)) : sstate * list (list rmove) * bool :=
+         match k with O => (s, out, false) | S k' =>
            let '(g, nx) := mg_next (gfuel g) s g in
            match nx with
-           | None => (s, out)
+           | None => (s, out, false)
            | Some (m, child) =>
              let s := set_fm s 0 m in
              let '(s, (ms, cv)) := srch 40 false s child 1 (d - 1) pvt (- v - 1) (- v + 1) true in
+             if negb pinned && cancelled s then (s, out, true) else
              let cv := - cv in
              if negb (cv =? v) then loop k' s g out
              else if move_equal m pm then loop k' s g out
              else loop k' s g (out ++ [m :: ms])
            end
          end) (gfuel g0) s g0 [pv] in
-    (s, (out, v, d, canc))
+    (s, (out, v, d, canc || brk))
   end.
 End Srch.
 
@@ -467,6 +472,8 @@ Definition analyze_search (basis : list N) (cfg : config) := analyze_gen false b
 Definition analyze_cancel (basis : list N) (cfg : config) (k : Z) := analyze_gen false basis cfg k.         (* cancelled inside the k-th leaf evaluation *)
 Definition analyze_limited (basis : list N) (cfg : config) (d : Z) := analyze_depth false basis cfg 0 d.    (* uninterrupted, Cfg.Depth = d *)
 Definition analyze_all (basis : list N) (cfg : config) := analyze_all_gen false basis cfg 0.
+Definition analyze_all_cancel (basis : list N) (cfg : config) (k : Z) := analyze_all_gen false basis cfg k.   (* cancelled inside the k-th leaf evaluation *)
+Definition analyze_all_pinned (basis : list N) (cfg : config) (k : Z) := analyze_all_gen true basis cfg k.   (* before the AnalyzeAll repair *)
 (* the code before the repairs *)
 Definition analyze_pinned (basis : list N) (cfg : config) (k : Z) := analyze_gen true basis cfg k.
 
